@@ -16,6 +16,7 @@
 #include <fstream>
 #include <map>
 #include <set>
+#include <sys/mman.h>
 #include <sys/time.h>
 #include <sys/wait.h>
 #include <unistd.h>
@@ -584,6 +585,66 @@ static void testBasis(const std::string& test, const char* path, const char* bas
    clearReloadSolve(s, true);
 }
 
+
+// ------------------------------------------------------------------------------------------------------------------
+// settings reader: exact-size line buffers whose terminator is the last byte in front of an inaccessible page, so that
+// a single step of the parser behind the terminator faults in every build (not only under AddressSanitizer)
+// ------------------------------------------------------------------------------------------------------------------
+struct GuardedLine
+{
+   char* base;
+   size_t maplen;
+   char* p;
+   GuardedLine(const char* str, size_t n)
+   {
+      size_t pg = (size_t) sysconf(_SC_PAGESIZE);
+      size_t need = n + 1;
+      size_t pages = (need + pg - 1) / pg;
+      maplen = (pages + 1) * pg;
+      base = (char*) mmap(nullptr, maplen, PROT_READ | PROT_WRITE, MAP_PRIVATE | MAP_ANONYMOUS, -1, 0);
+      mprotect(base + pages * pg, pg, PROT_NONE);
+      p = base + pages * pg - need;
+      memcpy(p, str, n);
+      p[n] = 0;
+   }
+   ~GuardedLine()
+   {
+      munmap(base, maplen);
+   }
+};
+
+// every parameter value, exactly
+static std::vector<std::string> paramDump(SP& s)
+{
+   std::vector<std::string> v;
+   char buf[96];
+
+   for(int i = 0; i < SP::BOOLPARAM_COUNT; i++)
+      v.push_back("bool:" + s._currentSettings->boolParam.name[i] + "=" + (s.boolParam((SP::BoolParam)i) ? "1" : "0"));
+
+   for(int i = 0; i < SP::INTPARAM_COUNT; i++)
+   {
+      snprintf(buf, sizeof(buf), "=%d", s.intParam((SP::IntParam)i));
+      v.push_back("int:" + s._currentSettings->intParam.name[i] + buf);
+   }
+
+   for(int i = 0; i < SP::REALPARAM_COUNT; i++)
+      v.push_back("real:" + s._currentSettings->realParam.name[i] + "=" + dy((double) s.realParam((SP::RealParam)i)));
+
+   snprintf(buf, sizeof(buf), "uint:random_seed=%u", s.randomSeed());
+   v.push_back(buf);
+   return v;
+}
+
+static std::string firstDiff(const std::vector<std::string>& a, const std::vector<std::string>& b)
+{
+   for(size_t i = 0; i < a.size() && i < b.size(); i++)
+      if(a[i] != b[i])
+         return a[i] + " vs " + b[i];
+
+   return "";
+}
+
 static void testSettings(const char* path)
 {
    SP s;
@@ -617,9 +678,98 @@ static void testSettings(const char* path)
       }
    };
    validate("load");
-   // every line again through parseSettingsString, from an exactly sized heap copy
    std::ifstream f(path, std::ios::binary);
    std::string content((std::istreambuf_iterator<char>(f)), std::istreambuf_iterator<char>());
+   {
+      // The file again, line by line as loadSettingsFile cuts it (same getline call), on two fresh objects:
+      //   g: _parseSettingsLine on an exact-size buffer in front of a guard page (nothing behind the terminator),
+      //   t: the twin parser parseSettingsString on the same kind of buffer.
+      // A line means the same whatever an earlier, longer line left in the 500-byte buffer of loadSettingsFile, so the
+      // three objects end with the same parameter values; a line that changes nothing here changes nothing there.
+      std::vector<std::string> loaded = paramDump(s);
+      // pass 1: cut the lines, run the twin parser
+      std::vector<std::string> texts;
+      std::vector<int> tres, tchg;
+      bool readError = false, twin = true;
+      {
+         SP t;
+         quiet(t);
+         std::istringstream is(content);
+         char lb[SPX_SET_MAX_LINE_LEN];
+
+         while(true)
+         {
+            readError = !is.getline(lb, sizeof(lb));
+
+            if(readError)
+               break;
+
+            size_t n = strlen(lb);
+            texts.push_back(std::string(lb, n));
+            int tr = 0, tch = 0;
+
+            if(n <= SPX_SET_MAX_LINE_LEN - 2)
+            {
+               std::vector<std::string> tb = paramDump(t);
+               GuardedLine tl(lb, n);
+               tr = t.parseSettingsString(tl.p);
+               tch = paramDump(t) != tb;
+            }
+            else
+               twin = false;       // parseSettingsString keeps 498 characters only
+
+            tres.push_back(tr);
+            tchg.push_back(tch);
+         }
+
+         readError = readError && !is.eof();
+
+         if(ok != !readError)
+            printf("inconsistent settings-load-return ret=%d expected=%d\n", ok, !readError);
+
+         if(twin)
+         {
+            std::string d = firstDiff(loaded, paramDump(t));
+
+            if(!d.empty())
+               printf("inconsistent settings-load-differs-from-parseSettingsString %s\n", d.c_str());
+         }
+
+         fflush(stdout);
+      }
+      // pass 2: _parseSettingsLine itself with nothing behind the terminator
+      SP g;
+      quiet(g);
+
+      for(size_t k = 0; k < texts.size(); k++)
+      {
+         size_t n = texts[k].size();
+         std::vector<std::string> gb = paramDump(g);
+         bool gr;
+         {
+            GuardedLine gl(texts[k].c_str(), n);
+            gr = g._parseSettingsLine(gl.p, (int) k + 1);
+         }
+         bool gch = paramDump(g) != gb;
+
+         if(n <= SPX_SET_MAX_LINE_LEN - 2 && (tres[k] != (int) gr || tchg[k] != (int) gch))
+            printf("inconsistent settings-twin-parsers-differ line %d file=%d,%d string=%d,%d\n", (int) k + 1, gr, gch, tres[k], tchg[k]);
+
+         if(k < 64 && n <= 600)
+            printf("sline %d %s line=%d,%d string=%d,%d\n", (int) k + 1, n ? vf::hex(texts[k]).c_str() : "e", gr, gch, tres[k], tchg[k]);
+
+         fflush(stdout);
+      }
+
+      std::string d = firstDiff(loaded, paramDump(g));
+
+      if(!d.empty())
+         printf("inconsistent settings-load-differs-from-per-line %s\n", d.c_str());
+
+      printf("perline lines=%d twin=%d\n", (int) texts.size(), twin);
+      fflush(stdout);
+   }
+   // every line again through parseSettingsString, from an exactly sized heap copy
    size_t a = 0;
    int nl = 0, nok = 0;
 
